@@ -5,7 +5,7 @@ from ..core.model import AnchorError, ClassInfo, FuncInfo
 from ..core.cfg import walk_shallow, cfg_of
 from ..core.facts import U, atoms_of
 from ..engine import argn, fn_name, kwarg, local_defs, returns_of, stmts_in, dict_items, const_str
-from .common import eval3
+from .common import eval3, inclusion_sites
 
 EXPLANATION = (
     "Decides structural clauses of C16 for every searcher class that implements get_state / clone_from_state / "
@@ -117,18 +117,18 @@ def keys_written(ctx, cls: ClassInfo, meth="get_state", _depth=0):
     return out
 
 
-def keys_read(ctx, f: FuncInfo, _seen=None):
-    """{key: 'hard'|'soft'} read from the state parameter of f, following super() and
-    `<obj>._restore_from_state(state)` / clone construction."""
+def keys_read(ctx, f: FuncInfo, _seen=None, sv=None):
+    """{key: 'hard'|'soft'} read from the state parameter of f, following super(),
+    `<obj>._restore_from_state(state)` / clone construction, and any own method the state is handed to."""
     P = ctx.P
     _seen = _seen if _seen is not None else set()
-    if f in _seen:
+    if (f, sv) in _seen:
         return {}
-    _seen.add(f)
+    _seen.add((f, sv))
     ps = [p for p in f.params if p != "self"]
     if not ps:
         return {}
-    sv = ps[0]
+    sv = sv or ps[0]
     out = {}
 
     def put(k, kind):
@@ -167,6 +167,21 @@ def keys_read(ctx, f: FuncInfo, _seen=None):
             for g in tg:
                 for k, kind in keys_read(ctx, g, _seen).items():
                     put(k, kind)
+        elif isinstance(x, ast.Call) and isinstance(x.func, ast.Attribute) and isinstance(x.func.value, ast.Name) and x.func.value.id == "self" \
+                and f.defining_cls is not None:
+            # the state handed on to a method of the same object: what that method reads from it counts
+            m = P.lookup_method(f.defining_cls, x.func.attr)
+            if m is None:
+                continue
+            mp = [p for p in m.params if p != "self"]
+            for i, a_ in enumerate(x.args):
+                if isinstance(a_, ast.Name) and a_.id == sv and i < len(mp):
+                    for k, kind in keys_read(ctx, m, _seen, sv=mp[i]).items():
+                        put(k, kind)
+            for kw_ in x.keywords:
+                if kw_.arg in mp and isinstance(kw_.value, ast.Name) and kw_.value.id == sv:
+                    for k, kind in keys_read(ctx, m, _seen, sv=kw_.arg).items():
+                        put(k, kind)
     return out
 
 
@@ -244,19 +259,41 @@ def s1(ctx, rep, sweep=False):
     rk = {k for k, v in keys_read(ctx, dec).items() if v != "test"}
     rep.put(bool(wk) and wk == rk, "S1", "agreement", "encode_state keys == decode_state keys", enc, None, str(sorted(wk)),
             f"encode_state writes {sorted(wk)}, decode_state reads {sorted(rk)}")
-    # a pending evaluation keeps its resource level in the snapshot: the element written for an entry WITH a resource has the key
-    for x in walk_shallow(enc.node):
-        if isinstance(x, ast.IfExp) and any(isinstance(y, ast.Attribute) and y.attr == "resource" for y in ast.walk(x.test)):
-            t, a_t, a_f = x.test, x.body, x.orelse
-            while isinstance(t, ast.UnaryOp) and isinstance(t.op, ast.Not):
-                t, a_t, a_f = t.operand, a_f, a_t
-            at_ = atoms_of(t, True)
-            has = any(a[0] == "is" and a[1].endswith(".resource") and a[3] is False for a in at_)
-            hasnot = any(a[0] == "is" and a[1].endswith(".resource") and a[3] is True for a in at_)
-            with_res, without = (a_t, a_f) if has else (a_f, a_t) if hasnot else (None, None)
-            okr = with_res is not None and "'resource'" in U(with_res) and "'resource'" not in U(without)
-            rep.put(okr, "S1", "agreement", "encode_state: a pending evaluation with a resource level is written with its 'resource'", enc, x, "",
-                    "the resource level of pending evaluations is dropped from the snapshot: the restored multi-fidelity searcher fantasizes at the wrong levels")
+    # a pending evaluation keeps its resource level in the snapshot: somewhere the key 'resource' is written with the entry's
+    # resource level, at a place that is reached when the entry has one (a dict display in an arm of a conditional expression,
+    # or `element['resource'] = x.resource` under an `if`)
+    from .common import dom_guard
+    ce = cfg_of(enc)
+    res_sites = []
+
+    def _res_walk(e, atoms):
+        if isinstance(e, ast.IfExp):
+            _res_walk(e.test, atoms)
+            _res_walk(e.body, atoms | set(atoms_of(e.test, True)))
+            _res_walk(e.orelse, atoms | set(atoms_of(e.test, False)))
+            return
+        if isinstance(e, ast.Dict):
+            for k_, v_ in zip(e.keys, e.values):
+                if isinstance(k_, ast.Constant) and k_.value == "resource":
+                    res_sites.append((e, v_, atoms))
+        for ch in ast.iter_child_nodes(e):
+            if not isinstance(ch, (ast.FunctionDef, ast.AsyncFunctionDef, ast.Lambda, ast.ClassDef)):
+                _res_walk(ch, atoms)
+    for n in ce.nodes:
+        roots = list(ce.node_exprs(n.id))
+        if not roots:
+            continue
+        at0 = set(dom_guard(ctx, enc, n.id))
+        if n.kind == "stmt" and isinstance(n.ast, ast.Assign) and isinstance(n.ast.targets[0], ast.Subscript) and \
+                isinstance(n.ast.targets[0].slice, ast.Constant) and n.ast.targets[0].slice.value == "resource":
+            res_sites.append((n.ast, n.ast.value, at0))
+        for r_ in roots:
+            _res_walk(r_, at0)
+    reached = [s_ for s_ in res_sites if isinstance(s_[1], ast.Attribute) and s_[1].attr == "resource"
+               and not any(a[0] == "is" and a[1].endswith(".resource") and a[2] == "None" and a[3] is True for a in s_[2])]
+    rep.put(bool(reached), "S1", "agreement", "encode_state: a pending evaluation with a resource level is written with its 'resource'", enc,
+            res_sites[0][0] if res_sites else None, "",
+            "the resource level of pending evaluations is dropped from the snapshot: the restored multi-fidelity searcher fantasizes at the wrong levels")
     # each entry is a lossless image of the state field of the same name: the field itself, or an element-wise map over it
     # (no filter, no regrouping under a coarser key)
     from ..engine import deref
@@ -268,6 +305,10 @@ def s1(ctx, rep, sweep=False):
             ok_ = U(v) == f"{sp}.{k_}"
             if isinstance(v, ast.ListComp) and len(v.generators) == 1 and not v.generators[0].ifs:
                 ok_ = U(deref(enc, v.generators[0].iter)) == f"{sp}.{k_}"
+            elif isinstance(v_, ast.Name) and not ok_:
+                # a list filled by a loop: one unconditional append per element of the state field
+                sites = inclusion_sites(ctx, enc, v_.id)
+                ok_ = len(sites) == 1 and not sites[0][2] and len(sites[0][3]) == 1 and U(deref(enc, sites[0][3][0])) == f"{sp}.{k_}"
             rep.put(ok_, "S1", "agreement", f"encode_state: `{k_}` is written element by element from state.{k_}", enc, v_, "",
                     f"`{k_}` is built from `{U(v)[:80]}`, not from every element of {sp}.{k_}: entries are dropped or merged in the snapshot "
                     "(e.g. several pending evaluations of one trial at different resource levels collapse into one) and the restored "
